@@ -207,6 +207,10 @@ func (e *engine) runPair(j job, budget time.Duration, jobSeed int64) {
 			if r.expired() {
 				break
 			}
+			r.ctxClass = ""
+			if schema.EvolvedUnderNestedStruct(env1, env2, di) {
+				r.ctxClass = "nested-struct"
+			}
 			cfg := genConfigFor(round)
 			cfg.PresentProb = 0.75
 			raw2 := val.RandomRecord(r.valueRng(di, round), env2, di, cfg)
@@ -375,7 +379,12 @@ func main() {
 	keep := flag.Bool("keep", false, "keep the emitted packages")
 	budgetFlag := flag.Duration("budget", 0, "wall-clock budget of the run (default 110s quick, 560s thorough)")
 	floatKeys := flag.Bool("floatkeys", false, "also generate map[float, container] shapes (known defect class)")
+	_ = flag.String("repo", "/repo", "repository root (the harness module replaces github.com/200sc/bebop with /repo)")
+	replay := flag.String("replay", "", "re-run the single case of a failure record (JSON file) against the current tree")
 	flag.Parse()
+	if *replay != "" {
+		os.Exit(replayCase(*replay, *model, *work))
+	}
 	if *tier != "quick" && *tier != "thorough" {
 		die("unknown tier %q", *tier)
 	}
